@@ -144,15 +144,73 @@ def checkClauseVals (clause : List Char) (n : Nat) (items : List String) : Optio
     let nums := items.map leNumS
     if (nums.zip (nums.drop 1)).all (fun (a, b) => a < b) then none else some "clause-valuations-not-increasing"]
 
-def sizeTag (A : Arr) : List String :=
-  [s!"n{numVars A}", if A.size ≤ 2 then "const" else s!"sz{Nat.log2 (A.size + 1)}"] ++
-  (if isCanon A then [] else ["noncanon"]) ++
-  (if numVars A ≥ 10 then ["gap"] else [])
+/-- replay of a history of `sK=b` / `uK` / `iK=b` / `iK=-` operations on the model's raw vector -/
+def parseOp? (op : String) : Option (Nat × Option Bool) :=
+  let kind := op.take 1
+  let rest := (op.drop 1).toString
+  match rest.splitOn "=" with
+  | [k] => if kind.toString == "u" then k.toNat?.map (·, none) else none
+  | [k, v] =>
+    if kind.toString == "s" || kind.toString == "i" then
+      match k.toNat? with
+      | some k => if v == "1" then some (k, some true) else if v == "0" then some (k, some false)
+                  else if v == "-" && kind.toString == "i" then some (k, none) else none
+      | none => none
+    else none
+  | _ => none
+
+def parseHistory? (h : String) : Option (List (Nat × Option Bool)) :=
+  if h == "~" then some [] else (h.splitOn ".").mapM parseOp?
+
+/-- the literals a history leaves, computed without the vector model: the last operation on each variable -/
+def literalAfter (ops : List (Nat × Option Bool)) (k : Nat) : Option Bool :=
+  match ops.reverse.find? (·.1 == k) with
+  | some (_, x) => x
+  | none => none
+
+/-- `<count>/<clause>><seq>/…` -/
+def parseClauseVals? (s : String) : Option (List (String × String)) :=
+  match s.splitOn "/" with
+  | c :: items =>
+    if c.toNat? != some items.length then none else
+    items.mapM fun it => match it.splitOn ">" with
+      | [cl, sq] => some (cl, sq)
+      | _ => none
+  | [] => none
+
+def showClauseVals (n : Nat) : Outcome (List PV) → String
+  | .ok cs => s!"{cs.length}" ++ String.join (cs.map fun c =>
+      "/" ++ showPartial n c ++ ">" ++
+        (match cvNew c n with
+         | .ok st => showVals (collect cvNext bigFuel st)
+         | _ => "panic"))
+  | .err _ => "err"
+  | .panic _ => "panic"
 
 /-- a panic is a failure of the property only on reduced diagrams (the path iterator refuses
     diagrams with a redundant test by design) -/
 def panicFail (A : Arr) (what : String) : Option String :=
   if isReduced A then some ("outcome:" ++ what) else none
+
+/-- every clause's valuations are exactly its extensions; all of them together are the satisfying set -/
+def checkClauseValsAll (A : Arr) (field : String) (needUnion : Bool) : Option String :=
+  let n := numVars A
+  match parseClauseVals? field with
+  | none => if needUnion then some ("outcome:" ++ field) else panicFail A field
+  | some items =>
+    firstFail [
+      items.findSome? fun (cl, sq) =>
+        let chars := if cl == "~" then [] else cl.toList
+        if chars.length != n then some "clause-shape" else
+        match parseSeq? sq with
+        | some vs => checkClauseVals chars n vs
+        | none => some ("outcome:" ++ sq),
+      checkVals A (items.flatMap fun (_, sq) => (parseSeq? sq).getD [])]
+
+def sizeTag (A : Arr) : List String :=
+  [s!"n{numVars A}", if A.size ≤ 2 then "const" else s!"sz{Nat.log2 (A.size + 1)}"] ++
+  (if isCanon A then [] else ["noncanon"]) ++
+  (if numVars A ≥ 10 then ["gap"] else [])
 
 def handle (key : String) (ins obs : List String) : Verdict :=
   match key, ins, obs with
@@ -210,6 +268,40 @@ def handle (key : String) (ins obs : List String) : Verdict :=
         if takenC == "panic" || isPrefix takenC cls then none else some "owned-prefix"]
       { agree := model == " ".intercalate obs, model, fail, nontrivial := A.size > 2,
         tags := "owned" :: (if k == 0 then "k0" else if k ≥ 100000 then "kall" else "kmid") :: sizeTag A }
+    | _, _ => Verdict.bad "args"
+  | "C08.dnfvals", [b], [dnf, it] =>
+    match parseArr? b with
+    | some A =>
+      let n := numVars A
+      let model := showClauseVals n (toDnf A bigFuel) ++ " " ++ showClauseVals n (pathList A bigFuel)
+      let fail := firstFail [checkClauseValsAll A dnf true, checkClauseValsAll A it false]
+      { agree := model == dnf ++ " " ++ it, model, fail, nontrivial := A.size > 2, tags := "dnfvals" :: sizeTag A }
+    | none => Verdict.bad "args"
+  | "C08.hvals", [hist, n], [res, seen] =>
+    match parseHistory? hist, n.toNat? with
+    | some ops, some n =>
+      let c : PV := ops.foldl (fun c (k, x) => pvSet c k x) []
+      let w := max n 6
+      let model := (match cvNew c n with
+        | .ok st => showVals (collect cvNext bigFuel st)
+        | _ => "panic") ++ " " ++ showPartial w c
+      -- the clause by its literals only (independent of the vector model)
+      let maxK := ops.foldl (fun m (k, _) => max m (k + 1)) w
+      let chars := (List.range maxK).map fun k =>
+        match literalAfter ops k with | some true => '1' | some false => '0' | none => '-'
+      let inside := (chars.drop n).all (· == '-')
+      let fail := firstFail [
+        (let expectSeen := String.ofList (chars.take w) ++ String.join (((List.range maxK).drop w).filterMap fun k =>
+            match chars.getD k '-' with | '1' => some s!";{k}=1" | '0' => some s!";{k}=0" | _ => none)
+         if seen == expectSeen then none else some "history-literals"),
+        if !inside then none else
+          match parseSeq? res with
+          | some items => checkClauseVals chars n items
+          | none => some ("outcome:" ++ res)]
+      let free := ((List.range n).filter fun i => chars.getD i '-' == '-').length
+      { agree := model == res ++ " " ++ seen, model, fail, nontrivial := inside && !ops.isEmpty,
+        tags := ["hvals", s!"n{n}", if inside then "inside" else "beyond", s!"free{free}",
+          if c.length > n then "longer" else if c.length == n && pvGet c (n - 1) == none && n > 0 then "trailing-unset" else "plain"] }
     | _, _ => Verdict.bad "args"
   | "C08.cvals", [clause, n], [res] =>
     match n.toNat? with
